@@ -268,7 +268,7 @@ impl Engine for C13 {
         if mode == "cgr_batch" && rng.chance(1, 4) && !records.is_empty() {
             let i = rng.usize(0, records.len() - 1);
             let pos = rng.usize(0, records[i].seq.len());
-            records[i].seq.insert_str(pos, *rng.pick(&["N", "x", "-", "\u{e9}"]));
+            records[i].seq.insert_str(pos, *rng.pick(&["N", "x", "-", "\u{e9}", "4", "5", "!", "#", "'", "1", "t\u{301}"]));
         }
         let sched = Sched::draw(rng, 4 * batch as u64 + 8);
         Case {
